@@ -158,4 +158,15 @@ NoHolderInDestructed ==
 WaitsForEarlier == \A i \in 1..Len(destructed) : heldAtCall[destructed[i]] \subseteq released
 (* C17: at quiescence every flush has been destructed *)
 NothingPending == Quiescent => Len(destructed) = nflushcalls
+
+(* ---- liveness (growth beyond the listed invariants) ----
+   Fairness: a goroutine inside a call keeps running, and every token is eventually released; nobody is obliged
+   to start a new Acquire or FlushSession.  Under it every call returns, and the destructor of every flushed
+   session eventually runs -- without any further flush (the "eventually" reading of C17). *)
+InCall(p) == pc[p] # "idle" /\ Step(p)
+Fair == \A p \in Procs : WF_vars(InCall(p)) /\ WF_vars(RelStart(p))
+LiveSpec == Spec /\ Fair
+Destructed(s) == \E i \in 1..Len(destructed) : destructed[i] = s
+EveryFlushDestructed == \A s \in Sess : (seq[s] # 0) ~> Destructed(s)
+EveryCallReturns == \A p \in Procs : (pc[p] # "idle") ~> (pc[p] = "idle")
 =============================================================================
